@@ -84,6 +84,7 @@ def pin_index(idx, n):
 
 
 _DIMS_CACHE: Dict[Any, Any] = {}
+ISLICE = None       # (k, m): this worker enumerates the points k, k+m, k+2m, ... of its partition (set by the worker)
 DIMS_NOW = None     # the dimensions of THIS worker's partition, evaluated natively before the analysis starts
 
 
@@ -101,7 +102,12 @@ def decode_point(idx, dims):
     """One solver variable for a finite product space: idx (0 <= idx < prod(len(d) for d in dims)) is pinned by bisection and
     decoded in mixed radix into one choice per dimension.  N points cost N paths, and CONFIRMED means all N were enumerated."""
     dims = _dims_of(dims)
-    idx = pin_index(idx, space_size(dims))
+    total = space_size(dims)
+    if ISLICE is not None:
+        k, m = ISLICE
+        idx = k + m * pin_index(idx, (total - k + m - 1) // m)
+    else:
+        idx = pin_index(idx, total)
     out = []
     for d in dims:
         out.append(d[idx % len(d)])
